@@ -8,7 +8,10 @@ open Tak
 /-- the call returned a value or an error value: no panic, no hang -/
 def Graceful {α} (r : R α) : Prop := ∀ e, r = .error e → ∃ w, e = .illegal w
 
-theorem Graceful.noPanic {α} {r : R α} (h : Graceful r) : NoPanic r := by
+/-- the call did not panic -/
+def NeverPanics {α} (r : R α) : Prop := ∀ s, r ≠ .error (.panic s)
+
+theorem Graceful.noPanic {α} {r : R α} (h : Graceful r) : NeverPanics r := by
   intro s hs
   obtain ⟨w, hw⟩ := h _ hs
   cases hw
